@@ -71,11 +71,7 @@ def run(ctx):
                         'key does not mutate" are the ABC contracts, assumed',
                         'argument identity/forwarding is C04']
     regenerate(ctx)
-    proof_err = None
-    try:
-        ctx.prove(PROP, extra_targets=['theories/Core/Corr.vo', 'theories/Core/Cost.vo'])
-    except CoqFailure as e:
-        proof_err = e
+    proof_err = c01.prove_core(ctx, PROP)
     failures = 0
     try:
         failures += c01.run_stream(ctx, {'quick': 40, 'thorough': 800}[ctx.tier], 3, oracle, gen=targeted)
